@@ -5,6 +5,16 @@ NOTES = ("Every check runs: translator -> lake build of the property's theorem m
          "the hook can record the value actually returned (no line is deleted, behaviour is unchanged).")
 NOT_YET = {}
 CLAIMS = {
+    "C08": {
+        "text": "Machine-checked Lean theorems, for every id sequence, decoder map, mode and prefix: decode = flatMap of id bytes "
+                "(decode_direct_eq_flatMap), homomorphism (decode_append), first invalid id (decode_error_first_invalid), totality "
+                "(decode_total), control filter (control_filtered_iff), vocabulary shadows specials, exact prefix-mode spacing "
+                "(prefix_spacing). Model tied to src/decoder.rs / Kitoken::decode by differential runs on generated and shipped definitions.",
+        "design_ref": "DESIGN.md §6 C08",
+        "note": "Trusted: Lean kernel + {propext, Classical.choice, Quot.sound}; harness generators; hash maps modelled as finite maps; "
+                "regex clean-up steps are oracle-backed.",
+        "technique": "Lean 4 proof over executable model + differential correspondence with the Rust implementation",
+    },
     "C13": {
         "text": "Machine-checked Lean theorems (all sequences, all parameters, no bound) that Strip/Collapse/Pad/Truncate have exactly their "
                 "documented effect and never panic, over a model tied to src/config/processing.rs by differential runs on exhaustive small "
